@@ -163,10 +163,10 @@ def check_full_run(case, sub="runs"):
     seen = []
     orig = solver.update_hof
 
-    def spy(population):
+    def spy(population, *args, **kwargs):
         for score, c in population:
             predicate(c, sub, "population", icls, "population member")
-        orig(population)
+        orig(population, *args, **kwargs)
 
     solver.update_hof = spy
     solver.seed(case["seed"])
